@@ -64,7 +64,7 @@ func nextStringArrayArguments(cmd string, name string, args Arguments) ([]string
 		strs = append(strs, str)
 		str, err = args.NextString()
 	}
-	if !errors.Is(err, proto.ErrEOM) {
+	if !errors.Is(err, proto.ErrEOM) || len(strs) == 0 {
 		return nil, newMissingArgumentError(cmd, name, err)
 	}
 	return strs, nil
@@ -85,6 +85,9 @@ func nextStringMapArguments(cmd string, args Arguments) (map[string]string, erro
 	}
 	if !errors.Is(err, proto.ErrEOM) {
 		return nil, err
+	}
+	if len(dir) == 0 {
+		return nil, newMissingArgumentError(cmd, "key", err)
 	}
 	return dir, nil
 }
